@@ -283,6 +283,10 @@ def b_list(I, args, kwargs, node):
         return SList([args[0].part])
     if isinstance(args[0], SList):
         return SList(args[0].items)
+    if isinstance(args[0], SymList):
+        c = args[0].snapshot()      # a copy: same elements, its own identity
+        c.origin = None
+        return c
     return SList(I.iterate(args[0], node))
 
 
@@ -317,17 +321,21 @@ def b_set(I, args, kwargs, node):
 
 def b_range(I, args, kwargs, node):
     if not all(isinstance(a, int) for a in args):
+        if len(args) in (1, 2) and all(is_intlike(a) and not isinstance(a, (bool, SBool)) for a in args):
+            lo, hi = (0, args[0]) if len(args) == 1 else args
+            return SymRange(to_zint(lo), to_zint(hi))
         raise Unsupported("range() with symbolic bounds")
     return list(range(*args))
 
 
-def symlist_elem(I, L, zi):
-    """element i (z3 Int known to be in range) of a symbolic list: an object whose fields are function applications;
-    the unfolding axioms of registered fold functions are instantiated for this index"""
+def symlist_base_elem(I, L, zi):
+    """element zi of the ORIGINAL list (version 0; zi known to be in range and not overwritten): an object whose
+    fields are function applications; the unfolding axioms of the registered folds are instantiated for this index"""
     zi = z3.simplify(zi) if z3.is_expr(zi) else z3.IntVal(zi)
     cache = I.st.notes.setdefault('symlist_elems', {})
-    if (L.name, zi.get_id()) in cache:
-        return cache[(L.name, zi.get_id())][1]
+    ck = (L.name, zi.get_id())
+    if ck in cache:
+        return cache[ck][1]
     fields = {}
     for f, (fn, kind) in L.funcs.items():
         t = fn(zi)
@@ -335,10 +343,63 @@ def symlist_elem(I, L, zi):
     for hook in I.config.get('symlist_hooks', []):
         hook(I, L, zi)
     e = SObj(L.cls, fields, tag='symlist-element')
-    ck = (L.name, zi.get_id())
     cache[ck] = (zi, e)
     I.st.undo_log.append(lambda: cache.pop(ck, None))
     return e
+
+
+def symlist_elem(I, L, zi):
+    """element zi (in range) of the current version: the object stored there by the latest write to that index
+    (decided by forking on the index), else the original element"""
+    zi = z3.simplify(zi) if z3.is_expr(zi) else z3.IntVal(zi)
+    if getattr(I, 'generic_depth', 0):
+        return symlist_generic_elem(I, L, zi)
+    for idx, obj in reversed(L.over):
+        if I.branch(zi == idx):
+            return obj
+    return symlist_base_elem(I, L, zi)
+
+
+def symlist_generic_elem(I, L, zi, v=None):
+    """element at an index that stands for every index (bound variable / skolem constant): a read-only view whose
+    fields are If-chains over the writes; never forks"""
+    fields = {}
+    for f, (fn, kind) in L.funcs.items():
+        t = L.field(f, zi, v)
+        fields[f] = SStr([Sq(t)]) if kind == 'str' else (SInt(t) if kind == 'int' else SBool(t))
+    return SObj(L.cls, fields, tag='symlist-element')
+
+
+def symlist_index(I, L, idx, node, exc=IndexError):
+    """normalised position of a python index; IndexError when out of range"""
+    if not is_intlike(idx):
+        raise PyRaise(TypeError)
+    zi = to_zint(idx)
+    n = L.n
+    in_range = z3.And(zi >= -n, zi < n)
+    if getattr(I, 'generic_depth', 0):
+        if not I.st.implied(in_range):
+            raise Unsupported("index into a list of symbolic length not known to be in range inside a quantified body")
+    elif not I.branch(in_range):
+        raise PyRaise(exc, lineno=getattr(node, 'lineno', None))
+    if I.st.implied(zi >= 0):
+        return z3.simplify(zi)
+    if I.st.implied(zi < 0):
+        return z3.simplify(zi + n)
+    return z3.simplify(z3.If(zi >= 0, zi, zi + n))
+
+
+def symlist_write(I, L, pos, obj, node=None):
+    """one mutation = one new version: (pos == current length: append; else store at pos)"""
+    if not isinstance(obj, SObj) or not issubclass(obj.cls, L.cls):
+        raise Unsupported("store of a value of another kind into a list of symbolic length")
+    for f in L.funcs:
+        if f not in obj.fields:
+            raise Unsupported(f"object stored into a list of symbolic length lacks field {f}")
+    I.st.notes.setdefault('frozen', {})[id(obj)] = obj      # from now on read-only (its fields are part of the list's value)
+    is_append = z3.is_expr(pos) and pos.eq(L.n) or pos is L.n
+    L.over.append((pos, obj))
+    L.ns.append(z3.simplify(L.n + 1) if is_append else L.n)
 
 
 def b_enumerate(I, args, kwargs, node):
@@ -419,18 +480,36 @@ def b_divmod(I, args, kwargs, node):
 
 
 def b_any(I, args, kwargs, node):
+    if isinstance(args[0], MapSym):
+        from . import folds
+        return SBool(folds.exists(_bool_map(I, args[0])))
     items = I.iterate(args[0], node)
     ts = [I.truth(x) for x in items]
     return bool_value(zor(*ts))
 
 
+def _bool_map(I, m):
+    if m.kind == 'bool':
+        return m
+    if m.kind == 'int':
+        return MapSym(m.src, m.j, m.expr != 0, 'bool', m.lo, m.hi)
+    return MapSym(m.src, m.j, z3.Length(m.expr) > 0, 'bool', m.lo, m.hi)
+
+
 def b_all(I, args, kwargs, node):
+    if isinstance(args[0], MapSym):
+        from . import folds
+        return SBool(folds.forall(_bool_map(I, args[0])))
     items = I.iterate(args[0], node)
     ts = [I.truth(x) for x in items]
     return bool_value(zand(*ts))
 
 
 def b_sum(I, args, kwargs, node):
+    if isinstance(args[0], MapSym):
+        from . import folds
+        r = folds.sum_of(I, args[0])
+        return I.binop(_ADD, args[1], r, node) if len(args) > 1 else r
     items = I.iterate(args[0], node)
     acc = args[1] if len(args) > 1 else 0
     for x in items:
@@ -550,6 +629,8 @@ def has_method(obj, name):
         return name in _STR_METHODS
     if isinstance(obj, SList):
         return name in _LIST_METHODS
+    if isinstance(obj, SymList):
+        return name in ('append',)
     if isinstance(obj, SDict):
         return name in _DICT_METHODS
     if isinstance(obj, SSet):
@@ -586,6 +667,13 @@ def call_method(I, obj, name, args, kwargs, node):
         return str_method(I, obj, name, args, kwargs, node)
     if isinstance(obj, SList):
         return list_method(I, obj, name, args, kwargs, node)
+    if isinstance(obj, SymList):
+        if name == 'append' and len(args) == 1 and not kwargs:
+            if getattr(I, 'generic_depth', 0) or I.spec_depth:
+                raise Unsupported("mutation of a list inside a specification")
+            symlist_write(I, obj, obj.n, args[0], node)
+            return None
+        raise Unsupported(f"method {name} of a list of symbolic length")
     if isinstance(obj, SDict):
         return dict_method(I, obj, name, args, kwargs, node)
     if isinstance(obj, SSet):
@@ -610,6 +698,11 @@ _UPPER = z3.Function('str_upper', z3.StringSort(), z3.StringSort())
 
 def str_method(I, s, name, args, kwargs, node):
     conc = isinstance(s, str) and all(is_concrete(a) for a in args)
+    if name == 'join' and isinstance(args[0], MapSym):
+        if not (isinstance(s, str) and s == ""):
+            raise Unsupported("join with a non-empty separator over a list of symbolic length")
+        from . import folds
+        return folds.join_of(I, args[0])
     if name == 'join':
         items = I.iterate(args[0], node)
         if len(items) == 1 and isinstance(items[0], Repeat):
@@ -984,13 +1077,9 @@ def subscript(I, obj, idx, node):
             return I.call(_I().BoundMethod(m, obj), [idx], {})
         raise PyRaise(TypeError)
     if isinstance(obj, SymList):
-        if not is_intlike(idx):
-            raise PyRaise(TypeError)
-        zi = to_zint(idx)
-        if not I.branch(z3.And(zi >= -obj.n, zi < obj.n)):
-            raise PyRaise(IndexError, lineno=getattr(node, 'lineno', None))
-        pos = zi if I.st.implied(zi >= 0) else z3.If(zi >= 0, zi, zi + obj.n)
-        return symlist_elem(I, obj, pos)
+        if isinstance(idx, slice):
+            raise Unsupported("slice of a list of symbolic length")
+        return symlist_elem(I, obj, symlist_index(I, obj, idx, node))
     if isinstance(obj, list):
         return obj[idx]
     if hasattr(obj, 'subscript_model'):
@@ -1021,6 +1110,14 @@ def str_slice_symbolic(I, s, lo, hi, step, node):
 
 
 def store_subscript(I, obj, idx, v, node):
+    if isinstance(obj, SymList):
+        if isinstance(idx, slice):
+            raise Unsupported("slice store into a list of symbolic length")
+        if I.spec_depth:
+            raise Unsupported("mutation of a list inside a specification")
+        pos = symlist_index(I, obj, idx, node)
+        symlist_write(I, obj, pos, v, node)
+        return
     if isinstance(obj, SList):
         if isinstance(idx, slice):
             if not all(x is None or isinstance(x, int) for x in (idx.start, idx.stop, idx.step)):
